@@ -1315,6 +1315,9 @@ func (cx *Ctx) lostUpdates(cw *c13Walk) []lostUpdate {
 						continue
 					}
 					if orderedBefore(R.ev, Sp.ev) {
+						if cx.freshThroughWriter(R.ev, Sp.ev, S.ev) {
+							continue
+						}
 						out = append(out, lostUpdate{cw.e, R.ev, Sp.ev, S.ev, g.Name, Sp.ev.Args[0].LooseString() == S.ev.Args[0].LooseString()})
 					}
 				}
@@ -1322,6 +1325,54 @@ func (cx *Ctx) lostUpdates(cw *c13Walk) []lostUpdate {
 		}
 	}
 	return out
+}
+
+// freshThroughWriter: second opinion on a stale write-back candidate, on the SSA values
+// instead of the terms (where an inlined helper has lost its call identity): the value
+// stored by S depends on the early read R only THROUGH the result of the call that
+// performed the intervening write S' (pool, _, err = k.update(ctx, pool, ...); ...;
+// k.SetPool(ctx, pool)) - it is the fresh value. Conclusive only when the slice followed
+// everything it met.
+func (cx *Ctx) freshThroughWriter(R, Sp, S *Event) bool {
+	cs, ok := S.Site.(ssa.CallInstruction)
+	if !ok || len(cs.Common().Args) < 2 {
+		return false
+	}
+	anc := func(ev *Event) map[token.Pos]bool {
+		m := map[token.Pos]bool{}
+		for f := ev.Fr; f != nil; f = f.Parent {
+			if f.Call != nil {
+				m[f.Call.Pos()] = true
+			}
+		}
+		return m
+	}
+	ancR, ancSp := anc(R), anc(Sp)
+	var stack []*ssa.Call
+	for f := S.Fr; f != nil; f = f.Parent {
+		if f.Call == nil {
+			if f.Parent != nil {
+				return false // closure frame: not handled here
+			}
+			break
+		}
+		c, isCall := f.Call.(*ssa.Call)
+		if !isCall {
+			return false
+		}
+		stack = append([]*ssa.Call{c}, stack...)
+	}
+	sl := cx.newSlicer(func(v ssa.Value, _ []*ssa.Call) bool {
+		c, ok := v.(*ssa.Call)
+		return ok && ancR[c.Pos()] && !ancSp[c.Pos()]
+	}, false)
+	sl.wholeOnly = true
+	sl.stop = func(v ssa.Value, _ []*ssa.Call) bool {
+		c, ok := v.(*ssa.Call)
+		return ok && ancSp[c.Pos()]
+	}
+	dep := sl.derives(cs.Common().Args[1], stack, -1)
+	return !dep && !sl.unknown
 }
 
 func init() {
@@ -1335,6 +1386,7 @@ func init() {
 				if !seen[k] {
 					seen[k] = true
 					fmt.Println(k)
+					fmt.Println("    value term:", lu.end.Args[1].String())
 				}
 			}
 		}
